@@ -418,7 +418,36 @@ func asFailingRestartHook(rng *rand.Rand) (*asScenario, []asStep) {
 	return sc, steps
 }
 
+// asStopDuringGracefulRestart: f fails, its supervisor t decides GracefulRestart, f is tearing down and still waits for
+// its child when t itself (or f) is stopped, by poison or immediately: everybody must terminate - nobody comes back to
+// life, nobody waits for ever.
+func asStopDuringGracefulRestart(rng *rand.Rand) (*asScenario, []asStep) {
+	par := map[string]string{"t": "root", "f": "t", "c": "f", "b": "t"}
+	sc := &asScenario{Parent: par, Names: []string{"b", "c", "f", "t"}, Cfg: asConfig{Decision: map[string]string{}, Strategy: map[string]string{}}}
+	for _, n := range sc.Names {
+		sc.Cfg.Decision[n] = []string{"restart", "grestart", "resume"}[rng.Intn(3)]
+		sc.Cfg.Strategy[n] = []string{"ofo", "ofa"}[rng.Intn(2)]
+	}
+	sc.Cfg.Decision["t"] = "grestart"
+	sc.Cfg.Strategy["t"] = "ofo"
+	steps := []asStep{{A: "spawn", X: "t"}, {A: "turn", X: "t"}, {A: "turn", X: "b"}, {A: "turn", X: "f"}, {A: "turn", X: "c"},
+		{A: "tell", X: "f", Op: "fail"}, {A: "turn", X: "f"}, {A: "turn", X: "t"}, {A: "turn", X: "f"},
+		{A: "kill", X: []string{"t", "t", "f"}[rng.Intn(3)], Poison: rng.Intn(3) > 0}, {A: "random"}}
+	for i := 0; i < rng.Intn(3); i++ {
+		steps = append(steps, asStep{A: "tell", X: []string{"b", "f", "t"}[rng.Intn(3)], Op: "nop"})
+	}
+	return sc, steps
+}
+
 func asConcurrentSiblingFailures(rng *rand.Rand) (*asScenario, []asStep) {
+	if rng.Intn(5) == 0 {
+		return asStopDuringGracefulRestart(rng)
+	}
+	if rng.Intn(4) == 0 {
+		// siblings failing one after the other below a supervisor that escalates while it is still suspended by the first
+		// escalation; the top answers Resume or a graceful decision
+		return asOverlappingEscalations(rng)
+	}
 	if rng.Intn(2) == 0 {
 		return asFailingRestartHook(rng)
 	}
